@@ -1092,6 +1092,107 @@ example : (match mpEnsemble { sd := 1, atol := 0 } 0 [2] eps8 [(#v[#v[1/3]] : Ma
     | _ => false) = true := by
   decide +kernel
 
+/-! ### SumTP of M∘M, chains ending in a state, the Kraus action -/
+section sumtp
+variable {K : Type} [CommRing K] {n : Nat} [NeZero n]
+
+/-- helper: first-row column sums of a list of products `x·y`, `x` ranging over a sum-TP list: `Σ_x (x y)₀ⱼ = y₀ⱼ` -/
+theorem sumtp_mul_row (h1 : List (Mat K n n)) (y : Mat K n n) (hM : SumTP h1) (j : Fin n) :
+    lsum (h1.map fun x => (x.mul y).get 0 j) = y.get 0 j := by
+  unfold SumTP at hM
+  have : (fun x : Mat K n n => (x.mul y).get 0 j) = fun x => fsum n fun k => x.get 0 k * y.get k j := by
+    funext x; simp [Mat.mul]
+  rw [this, lsum_fsum_swap h1 (fun x k => x.get 0 k * y.get k j)]
+  have h : ∀ k : Fin n, lsum (h1.map fun x => x.get 0 k * y.get k j) = (if k = 0 then 1 else 0) * y.get k j := by
+    intro k
+    rw [← hM k]
+    have := lsum_map_mul_left (y.get k j) h1 (fun x => x.get 0 k)
+    simp only [mul_comm (y.get k j)] at this
+    rw [this]
+  simp only [h, fsum_eq_sum, ite_mul, one_mul, zero_mul, Finset.sum_ite_eq', Finset.mem_univ, if_true]
+
+/-- C06 "composing physical operations gives a physical result", equality part for `MProcess∘MProcess`: if both
+families of outcome maps sum to trace-preserving maps, so does the composite family `mpMp h1 h2` (all outcome counts). -/
+theorem sumtp_mpMp (h1 h2 : List (Mat K n n)) (hM1 : SumTP h1) (hM2 : SumTP h2) : SumTP (mpMp h1 h2) := by
+  intro j
+  have hblock : ∀ l2 : List (Mat K n n),
+      lsum ((mpMp h1 l2).map fun hs => hs.get 0 j) = lsum (l2.map fun y => y.get 0 j) := by
+    intro l2
+    unfold mpMp
+    induction l2 with
+    | nil => simp [lsum]
+    | cons y ys ih =>
+      simp only [List.flatMap_cons, List.map_append, lsum_append, List.map_cons, List.map_map]
+      have := sumtp_mul_row h1 y hM1 j
+      simp only [Function.comp_def] at this ⊢
+      rw [this, ih]
+      simp [lsum]
+  rw [hblock h2]; exact hM2 j
+
+end sumtp
+
+section chainstate
+variable {n : Nat} [NeZero n]
+
+/-- helper: evaluation of a bracketing of gates -/
+theorem gate_tree_eval (c : Cfg) (s : Nat) (t : Tree n) (h : ∀ x ∈ t.leaves, ∃ A, x = QOp.gate s A) :
+    t.eval c = .ok (.gate s (gateProd t.leaves)) := by
+  induction t with
+  | leaf x =>
+    obtain ⟨A, rfl⟩ := h x (by simp [Tree.leaves])
+    simp [Tree.eval, Tree.leaves, gateProd, gateOf]
+  | node l r ihl ihr =>
+    have hl := ihl (fun x hx => h x (by simp [Tree.leaves, hx]))
+    have hr := ihr (fun x hx => h x (by simp [Tree.leaves, hx]))
+    simp only [Tree.eval, hl, hr, bind, Except.bind, compose, ne_eq, not_true_eq_false, if_false, Tree.leaves]
+    rw [gateProd_append _ _ (leaves_ne_nil l) (leaves_ne_nil r)]
+
+omit [NeZero n] in
+theorem one_mulVec_rat (v : Vec Rat n) : (Mat.one : Mat Rat n n).mulVec v = v := by
+  apply Vec.toV_injective; simp
+
+/-- C06 bracketing on the executed evaluator for chains **ending in a state**: every bracketing of
+`G₁ ∘ … ∘ G_k ∘ ρ` (any `k ≥ 0`) evaluates to the state `(G₁⋯G_k)·ρ` — all bracketings agree. -/
+theorem gate_chain_state_bracketing (c : Cfg) (s : Nat) (rho : Vec Rat n) (t : Tree n) (gs : List (QOp n))
+    (hg : ∀ x ∈ gs, ∃ A, x = QOp.gate s A) (hl : t.leaves = gs ++ [.state s rho]) :
+    t.eval c = .ok (.state s ((gateProd gs).mulVec rho)) := by
+  induction t generalizing gs with
+  | leaf x =>
+    simp only [Tree.leaves] at hl
+    cases gs with
+    | nil => simp at hl; subst hl; simp [Tree.eval, gateProd, one_mulVec_rat]
+    | cons g gs' => simp at hl
+  | node l r ihl ihr =>
+    simp only [Tree.leaves] at hl
+    -- the state is the last leaf, so it sits in `r`; `l` consists of gates
+    have hrne := leaves_ne_nil r
+    obtain ⟨ri, rl, hri⟩ : ∃ ri rl, r.leaves = ri ++ [rl] := by
+      rcases List.eq_nil_or_concat r.leaves with h | ⟨i, a, h⟩
+      · exact absurd h hrne
+      · exact ⟨i, a, by simpa using h⟩
+    rw [hri, ← List.append_assoc] at hl
+    have hlast := List.append_inj' hl (by simp)
+    obtain ⟨hgs, hst⟩ := hlast
+    simp only [List.cons.injEq, and_true] at hst
+    subst hst
+    have hlg : ∀ x ∈ l.leaves, ∃ A, x = QOp.gate s A := fun x hx => hg x (by rw [← hgs]; simp [hx])
+    have hrg : ∀ x ∈ ri, ∃ A, x = QOp.gate s A := fun x hx => hg x (by rw [← hgs]; simp [hx])
+    have hr := ihr ri hrg hri
+    have hle := gate_tree_eval c s l hlg
+    simp only [Tree.eval, hle, hr, bind, Except.bind, compose, ne_eq, not_true_eq_false, if_false]
+    rw [← hgs]
+    cases ri with
+    | nil => simp [gateProd, one_mulVec_rat]
+    | cons a as => rw [gateProd_append _ _ (leaves_ne_nil l) (by simp), mulVec_mulVec]
+
+
+/-- non-vacuity of `gate_chain_state_bracketing`: two gates and a state on `n = 2` coefficients -/
+example : ∀ x ∈ [QOp.gate 0 (#v[#v[1, 0], #v[1/3, 1/2]] : Mat Rat 2 2), .gate 0 #v[#v[1, 0], #v[0, -1]]],
+    ∃ A, x = QOp.gate 0 A := by
+  intro x hx; simp at hx; rcases hx with rfl | rfl <;> exact ⟨_, rfl⟩
+
+end chainstate
+
 /-! ### Born probabilities are non-negative -/
 section born
 open scoped ComplexOrder
@@ -1135,6 +1236,43 @@ end born
 example : ∀ α β : Fin 1, ((fun _ : Fin 1 => (1 : Matrix (Fin 1) (Fin 1) ℂ)) α *
     (fun _ : Fin 1 => (1 : Matrix (Fin 1) (Fin 1) ℂ)) β).trace = if α = β then 1 else 0 := by
   intro α β; simp [Subsingleton.elim α β]
+
+section krausaction
+variable {d n : Nat}
+
+/-- C06 "a gate acts on a state through its Kraus operators": if the HS matrix of a gate is the HS matrix of the
+Kraus operators `K_k` in the matrix basis `B` (`hs_αβ = tr(B_α Σ_k K_k B_β K_kᴴ)`, which is what
+`to_hs_from_kraus_matrices` / the harness generators compute for a Hermitian basis), then the vector the dispatch
+returns for `Gate∘State`, `hs · vec ρ`, is the coefficient vector of `Σ_k K_k ρ K_kᴴ`:
+`(hs·v)_α = tr(B_α Σ_k K_k (Σ_β v_β B_β) K_kᴴ)` — every dimension, every number of Kraus operators, no hypothesis on `B`. -/
+theorem gate_state_kraus (B : Fin n → Matrix (Fin d) (Fin d) ℂ) (ks : List (Matrix (Fin d) (Fin d) ℂ))
+    (hs : Mat ℝ n n) (v : Vec ℝ n)
+    (hhs : ∀ α β, ((hs.get α β : ℝ) : ℂ) = (B α * (ks.map fun K => K * B β * Kᴴ).sum).trace) (α : Fin n) :
+    (((hs.mulVec v).get α : ℝ) : ℂ) = (B α * (ks.map fun K => K * matOf B v * Kᴴ).sum).trace := by
+  have hlin : (ks.map fun K => K * matOf B v * Kᴴ).sum
+      = ∑ β, ((v.get β : ℝ) : ℂ) • (ks.map fun K => K * B β * Kᴴ).sum := by
+    clear hhs
+    induction ks with
+    | nil => simp
+    | cons K ks ih =>
+      simp only [List.map_cons, List.sum_cons, ih, smul_add, Finset.sum_add_distrib]
+      congr 1
+      simp only [matOf, Matrix.mul_sum, Matrix.sum_mul, Matrix.mul_smul, Matrix.smul_mul]
+  rw [hlin]
+  simp only [Matrix.mul_sum, Matrix.mul_smul, trace_sum, trace_smul, ← hhs, smul_eq_mul]
+  simp only [Mat.mulVec, Vec.get_ofFn, fsum_eq_sum]
+  push_cast
+  apply Finset.sum_congr rfl; intro β _; ring
+
+end krausaction
+
+/-- non-vacuity of `gate_state_kraus` (`hhs`): 1-dimensional system, basis `{1}`, one Kraus operator `1`, HS `(1)` -/
+example : ∀ α β : Fin 1, ((Mat.get (#v[#v[1]] : Mat ℝ 1 1) α β : ℝ) : ℂ)
+    = ((fun _ : Fin 1 => (1 : Matrix (Fin 1) (Fin 1) ℂ)) α *
+        ([(1 : Matrix (Fin 1) (Fin 1) ℂ)].map fun K => K * (fun _ : Fin 1 => (1 : Matrix (Fin 1) (Fin 1) ℂ)) β * Kᴴ).sum).trace := by
+  intro α β
+  fin_cases α; fin_cases β
+  simp [Mat.get]
 
 /-! ### non-vacuity: concrete instances of the hypotheses (1 qubit, normalised Pauli basis, `sd² = 2` replaced by
 the rational stand-in `sd = 1` on a 1-dimensional system where needed) -/
